@@ -88,7 +88,31 @@ def fixed_corpus():
     both = _sd("Both", [f(["Owner", "memo"], B("string")), f([], N("", "Plain")), f(["r"], B("int"), ["//shoot: set"])],
                ["// shoot: getter;setter"])
     res.append({"name": "g006", "structs": [acc, plain, third, both], "extra_decls": [], "features": {}, "select": "list"})
+    # a shoot type, then a struct whose name differs from it only in the case of the first letter, then a type embedding
+    # the first one, in one merged-mode run (the per-type overlay names must stay distinct: x.shootnew.base.go and
+    # x.shootnew._base.go); field names with a letter directly after a digit (x2y -> X2y / SetX2y)
+    for i, sel in enumerate(["file", "star"]):
+        base = _sd("Base", [f(["z"], B("int")), f(["x2y"], B("string"), ["//shoot: get;set"])])
+        low = _sd("base", [f(["k"], B("int")), f(["sha256sum"], B("string"))])
+        son = _sd("Son", [f([], N("", "Base")) if i == 0 else f([], ("ptr", N("", "Base"))), f(["utf8name"], B("bool"))])
+        res.append({"name": "g%03d" % (7 + i), "structs": [base, low, son], "extra_decls": [], "features": {}, "select": sel})
     return res
+
+
+DIGIT_NAMES = ["x2y", "sha256sum", "utf8name", "v1beta"]
+
+
+def add_digit_names(rng, pkg, p=0.3):
+    """an unexported accessor field whose name has a letter directly after a digit"""
+    if rng.random() >= p:
+        return
+    sd = rng.choice(pkg["structs"])
+    used = set(n for x in pkg["structs"] for fd in x["fields"] for n in fd["names"])
+    n = rng.choice(DIGIT_NAMES)
+    if n not in used:
+        sd["fields"].insert(rng.randrange(0, len(sd["fields"]) + 1),
+                            ctorgen.fdecl([n], ctorgen.T_basic(rng.choice(["int", "string"])),
+                                          rng.choice([[], ["//shoot: get"], ["//shoot: set;get"]])))
 
 
 def decl_order_not_sorted(pkg):
@@ -141,6 +165,7 @@ def gen_packages(run, n):
             opts = dict(p_embed=0.8)
         fatal = run.rng.random() < 0.04 and not force
         pkg = ctoracc.gen_acc_pkg(run.rng, name, p_exported_dir=0.5 if fatal else 0.0, **opts)
+        add_digit_names(run.rng, pkg)
         names = [sd["name"] for sd in pkg["structs"]]
         r = run.rng.random()
         sel = "list" if r < 0.76 else ("file" if r < 0.88 else "star")
@@ -504,8 +529,21 @@ def h_typespec_doc(run, shoot):
     return h
 
 
+def h_type_named_test(run, shoot):
+    def h(e):
+        r, gen, d = _gen(run, shoot, e)
+        if r["rc"] != 0:
+            return "other: exit %s: %s" % (r["rc"], r["err"][-200:])
+        withnew = [n for n, t in gen.items() if "func Newtest(" in t]
+        if not withnew:
+            return "other: Newtest not generated: %s" % sorted(gen)
+        return "buggy" if all(n.endswith("_test.go") for n in withnew) else "correct"
+    return h
+
+
 def finding_handlers(run, shoot, accbin=None):
     return {
+        "K_getset_type_named_test": h_type_named_test(run, shoot),
         "K_ctor_method_name_collision": ctor_findings.h_method_collision(run, shoot),
         "K_getset_shadow_type_conflict": h_shadow_type_conflict(run, shoot),
         "K_getset_typespec_doc": h_typespec_doc(run, shoot),
